@@ -130,3 +130,131 @@ Proof.
   - split; [split; [discriminate|intros [?|?]; lra]|]. split; [intros _; repeat split; lra|discriminate].
   - split; [split; [discriminate|intros [?|?]; lra]|]. split; [discriminate|intros _; repeat split; lra].
 Qed.
+
+(** ** Urban constructor: the first moments implied by its parameters add up to
+    the requested mean energy loss, in every excitation branch.
+    Sum_i Sigma_i E_i (excitation, Poisson means times level energies) +
+    Sigma_ion * <E_ion> (ionisation) = mean / scaling, and the sampler multiplies
+    by [scaling].  Hypotheses on the material data are those FluctuationParams
+    establishes: f_0 + f_1 = 1, f_i >= 0, f_0 ln E_0 + f_1 ln E_1 = ln I, E_0 <= E_1. *)
+Lemma urban_scaling_pos (Emax : R) : 0 < Emax ->
+  1 <= nhalf * nmin (nQ 1 1000 / Emax) n1 + n1.
+Proof.
+  intros HE. numR2. assert (0 < 1 / 1000 / Emax) by (apply Rdiv_lt_0_compat; lra).
+  destruct (Rltb 1 (1 / 1000 / Emax)); lra.
+Qed.
+
+Lemma urban_sc_pos (x : R) : 0 <= x ->
+  0 < (if Rltb x 42 then 1 / 2 + (2 * 2 - 1 / 2) * sqrt (x / 42) else 2 * 2).
+Proof.
+  intros Hx. destruct (Rltb x 42); [|lra].
+  pose proof (sqrt_pos (x / 42)). lra.
+Qed.
+
+Lemma urban_params_mean (m : urban_mat (T:=R)) unscaled Emax tmb bsq :
+  0 < unscaled -> 1 / 100000 < Emax ->
+  0 < um_be0 m -> 0 < um_be1 m -> um_f0 m + um_f1 m = 1 -> 0 <= um_f0 m -> 0 <= um_f1 m ->
+  um_f0 m * um_lbe0 m + um_f1 m * um_lbe1 m = um_logI m -> um_lbe0 m <= um_lbe1 m ->
+  urban_params_first_moment (fst (urban_construct m unscaled Emax tmb bsq)) = unscaled.
+Proof.
+  intros Hun HE Hb0 Hb1 Hf Hf0 Hf1 HI Hle.
+  pose proof (urban_scaling_pos Emax ltac:(lra)) as Hsc.
+  unfold urban_construct.
+  set (scaling := nhalf * nmin (nQ 1 1000 / Emax) n1 + n1) in *.
+  set (mean := unscaled / scaling).
+  assert (Hmean : 0 < mean) by (unfold mean; apply Rdiv_lt_0_compat; lra).
+  set (w0 := um_logI m) in *.
+  assert (HL : 0 < ln (Emax / (1 / 100000))).
+  { rewrite <- ln_1. apply ln_increasing; [lra|].
+    apply Rmult_lt_reg_r with (1 / 100000); [lra|].
+    replace (Emax / (1 / 100000) * (1 / 100000)) with Emax by field. lra. }
+  (* ionisation part *)
+  assert (Hion : mean * (Emax - 1 / 100000) / (Emax * (1 / 100000) * ln (Emax / (1 / 100000)))
+                 * (1 / 100000 * Emax * ln (Emax / (1 / 100000)) / (Emax - 1 / 100000)) = mean).
+  { field. repeat split; lra. }
+  assert (Hfin : forall xs0 be0 xs1 exc,
+            xs0 * be0 + xs1 * um_be1 m = exc ->
+            (0 < xs0 + xs1 -> exc = mean * (1 - 56 / 100)) -> (xs0 + xs1 <= 0 -> exc = 0) ->
+            urban_params_first_moment
+              (Urban Emax scaling be0 (um_be1 m) xs0 xs1
+                 (if nltb n0 (nadd xs0 xs1)
+                  then mean * (Emax - urban_e0) / (Emax * urban_e0 * nlog (Emax / urban_e0)) * urban_rate
+                  else mean * (Emax - urban_e0) / (Emax * urban_e0 * nlog (Emax / urban_e0)))) = unscaled).
+  { intros xs0 be0 xs1 exc Hexc Hp Hz. unfold urban_params_first_moment, urban_ion_mean, urban_e0, urban_rate.
+    cbn [ub_scaling ub_xs0 ub_be0 ub_xs1 ub_be1 ub_xs_ion ub_max_energy]. numR2. rewrite Hexc.
+    destruct (Rltb_spec 0 (xs0 + xs1)) as [Hpos|Hnp].
+    - rewrite (Hp Hpos).
+      replace (mean * (Emax - 1 / 100000) / (Emax * (1 / 100000) * ln (Emax / (1 / 100000))) * (56 / 100)
+               * (1 / 100000 * Emax * ln (Emax / (1 / 100000)) / (Emax - 1 / 100000)))
+        with (56 / 100 * (mean * (Emax - 1 / 100000) / (Emax * (1 / 100000) * ln (Emax / (1 / 100000)))
+               * (1 / 100000 * Emax * ln (Emax / (1 / 100000)) / (Emax - 1 / 100000)))) by ring.
+      rewrite Hion. unfold mean. field. lra.
+    - rewrite (Hz ltac:(lra)). rewrite Hion. unfold mean. field. lra. }
+  numR2. fold scaling. fold mean. set (w := ln tmb - bsq) in *.
+  destruct (Rltb_spec (um_I m) Emax) as [HbI|HbI].
+  2:{ cbv beta iota zeta. cbn [fst]. apply (Hfin 0 (um_be0 m) 0 0); [ring|intros; lra|reflexivity]. }
+  destruct (Rltb_spec w0 w) as [Hw|Hw].
+  2:{ cbv beta iota zeta. cbn [fst]. apply (Hfin 0 (um_be0 m) 0 0); [ring|intros; lra|reflexivity]. }
+  destruct (Rltb_spec (um_lbe1 m) w) as [Hw1|Hw1]; cbv beta iota zeta; cbn [fst].
+  - (* two levels *)
+    set (c := mean * (1 - 56 / 100) / (w - w0)).
+    assert (Hc : 0 < c) by (unfold c; apply Rdiv_lt_0_compat; [nra|lra]).
+    set (xs0 := c * um_f0 m * (w - um_lbe0 m) / um_be0 m).
+    set (xs1 := c * um_f1 m * (w - um_lbe1 m) / um_be1 m).
+    assert (Hx0 : 0 <= xs0).
+    { unfold xs0. apply Rmult_le_pos; [|left; apply Rinv_0_lt_compat; exact Hb0].
+      apply Rmult_le_pos; [nra|lra]. }
+    assert (Hx1 : 0 <= xs1).
+    { unfold xs1. apply Rmult_le_pos; [|left; apply Rinv_0_lt_compat; exact Hb1].
+      apply Rmult_le_pos; [nra|lra]. }
+    pose proof (urban_sc_pos xs0 Hx0) as Hscp.
+    set (sc := if Rltb xs0 42 then 1 / 2 + (2 * 2 - 1 / 2) * sqrt (xs0 / 42) else 2 * 2) in *.
+    assert (Hexc : xs0 / sc * (um_be0 m * sc) + xs1 * um_be1 m = mean * (1 - 56 / 100)).
+    { replace (xs0 / sc * (um_be0 m * sc)) with (xs0 * um_be0 m) by (field; lra).
+      unfold xs0, xs1.
+      replace (c * um_f0 m * (w - um_lbe0 m) / um_be0 m * um_be0 m + c * um_f1 m * (w - um_lbe1 m) / um_be1 m * um_be1 m)
+        with (c * ((um_f0 m + um_f1 m) * w - (um_f0 m * um_lbe0 m + um_f1 m * um_lbe1 m))) by (field; lra).
+      rewrite Hf, HI. unfold c. fold w0. field. lra. }
+    apply (Hfin (xs0 / sc) (um_be0 m * sc) xs1 _ Hexc); [reflexivity|].
+    intros Hnp. exfalso.
+    assert (Hx0' : 0 <= xs0 / sc) by (apply Rmult_le_pos; [exact Hx0|left; apply Rinv_0_lt_compat; exact Hscp]).
+    assert (Hz0 : xs0 = 0).
+    { assert (xs0 / sc = 0) by lra. apply Rmult_eq_reg_r with (/ sc); [|apply Rinv_neq_0_compat; lra].
+      unfold Rdiv in H. rewrite H. ring. }
+    assert (Hz1 : xs1 = 0) by lra.
+    assert (Hp0 : um_f0 m = 0).
+    { unfold xs0 in Hz0. destruct (Req_dec (um_f0 m) 0) as [E|NE]; [exact E|exfalso].
+      assert (0 < c * um_f0 m * (w - um_lbe0 m) / um_be0 m); [|lra].
+      apply Rdiv_lt_0_compat; [|exact Hb0]. apply Rmult_lt_0_compat; [apply Rmult_lt_0_compat; lra|lra]. }
+    assert (Hp1 : um_f1 m = 0).
+    { unfold xs1 in Hz1. destruct (Req_dec (um_f1 m) 0) as [E|NE]; [exact E|exfalso].
+      assert (0 < c * um_f1 m * (w - um_lbe1 m) / um_be1 m); [|lra].
+      apply Rdiv_lt_0_compat; [|exact Hb1]. apply Rmult_lt_0_compat; [apply Rmult_lt_0_compat; lra|lra]. }
+    lra.
+  - (* single level *)
+    set (xs0 := mean * (1 - 56 / 100) / um_be0 m).
+    assert (Hx0 : 0 < xs0) by (unfold xs0; apply Rdiv_lt_0_compat; [nra|exact Hb0]).
+    pose proof (urban_sc_pos xs0 ltac:(lra)) as Hscp.
+    set (sc := if Rltb xs0 42 then 1 / 2 + (2 * 2 - 1 / 2) * sqrt (xs0 / 42) else 2 * 2) in *.
+    assert (Hexc : xs0 / sc * (um_be0 m * sc) + 0 * um_be1 m = mean * (1 - 56 / 100)).
+    { unfold xs0. field. lra. }
+    apply (Hfin (xs0 / sc) (um_be0 m * sc) 0 _ Hexc); [reflexivity|].
+    intros Hnp. exfalso.
+    assert (0 < xs0 / sc) by (apply Rdiv_lt_0_compat; assumption). lra.
+Qed.
+
+(** ** Gamma / Gaussian models: the law's mean is the requested mean.
+    Gamma(k, theta) has mean k theta and variance k theta^2; the Gaussian model
+    accepts exactly a window symmetric about the mean, so truncation keeps it. *)
+Lemma eloss_gamma_params_mean (mean var : R) : 0 < mean -> 0 < var ->
+  let k := mean * mean / var in let theta := mean / k in
+  k * theta = mean /\ k * (theta * theta) = var /\ 0 < k /\ 0 < theta.
+Proof.
+  intros Hm Hv. cbv zeta.
+  assert (Hk : 0 < mean * mean / var) by (apply Rdiv_lt_0_compat; nra).
+  split; [field; lra|]. split; [field; lra|]. split; [exact Hk|apply Rdiv_lt_0_compat; assumption].
+Qed.
+
+Lemma eloss_gauss_window_symmetric (mean x : R) :
+  (0 < x < 2 * mean) <-> (0 < 2 * mean - x < 2 * mean).
+Proof. split; intros [H1 H2]; split; lra. Qed.
